@@ -11,7 +11,7 @@
    form:extra, form:ia-*, json:ia-* live there. *)
 From Coq Require Import String.
 From Verif Require Import Lib.Base Lib.PyStr Lib.Urlenc Lib.Utf8 Lib.Qs Lib.MsgSchema Gen.Schema
-  Model.Msg Model.MsgKinds Proofs.Qs_proofs Proofs.Msg_proofs Proofs.MsgTable_proofs.
+  Model.Msg Model.MsgKinds Model.MsgRules Model.MsgCheck Proofs.Qs_proofs Proofs.Msg_proofs Proofs.MsgTable_proofs.
 Open Scope string_scope.
 
 (* ---- the wire text layer: characters with special meaning survive ---- *)
